@@ -67,15 +67,33 @@ def check_always_recorded(f, rep, rule):
 
 def check_hashing_adapter(b, rep):
     tb = TermBuilder(b)
-    upd = [c for c in b.calls() if c.decl in ("digest::Digest::update", "digest::Update::update", "fixtures::MiniDigest::update") or c.decl.endswith("MiniDigest::update")]
+    UPD = lambda c: c.decl in ("digest::Digest::update", "digest::Update::update", "fixtures::MiniDigest::update") or c.decl.endswith("MiniDigest::update")
+    upd = [c for c in b.calls() if UPD(c)]
+    # `self.writer.write(buf).inspect(|&n| self.hasher.update(&buf[..n]))`: the update sits in a closure that runs on the inner
+    # call's Ok value (its parameter is bound to that value, its captures to this body's values)
+    upd_cl = []
+    facts_ = getattr(b, "facts", None)
+    if facts_ is not None:
+        for ic in b.calls():
+            if re.search(r"Result::<T, E>::(inspect|map|and_then)$", ic.decl) and len(ic.args) == 2:
+                for lf in b.origins(ic.args[1], passthrough={}):
+                    if lf["kind"] == "agg" and lf["stmt"]["rv"].get("ak") == "closure":
+                        cb_ = facts_.bodies.get(lf["stmt"]["rv"]["closure"])
+                        if cb_ is not None:
+                            upd_cl += [(cb_, c) for c in cb_.calls() if UPD(c)]
     inner = [c for c in b.calls() if c.decl == "std::io::Write::write"]
     inner_all = [c for c in b.calls() if c.decl == "std::io::Write::write_all"]
     key = fmt_key(b.path)
-    if not upd:
+    if not upd and not upd_cl:
         return False
     ret = render(tb.term({"l": 0, "p": [{"d": "Ok"}, {"f": 0, "n": "0"}]}))
-    for u in upd:
-        t = tb.term(u.args[1])
+    for u in upd + upd_cl:
+        in_closure = isinstance(u, tuple)
+        if in_closure:
+            cb_, u = u
+            t = TermBuilder(cb_, closure_env=True).term(u.args[1])
+        else:
+            t = tb.term(u.args[1])
         r = render(t)
         ok = False
         why = "hashes %s" % r
@@ -85,7 +103,7 @@ def check_hashing_adapter(b, rep):
             buf = render(tb.term(w.args[1]))
             want = "std::ops::Index::index(%s, std::ops::RangeTo::RangeTo{%s})" % (buf, count)
             want2 = "std::ops::Index::index(%s, std::ops::Range::Range{0_usize, %s})" % (buf, count)
-            ok = r in (want, want2) and b.dominates(w.bb, u.bb)
+            ok = r in (want, want2) and (in_closure or b.dominates(w.bb, u.bb))
             # and the adapter must report the same count
             ok_ret = count in ret
             rep.check(ok_ret, "R1", "%s|returns-count" % key, "%s returns the accepted count" % b.path,
